@@ -176,23 +176,17 @@ pub fn collect_sources<FS: FileSystem>(
 pub struct IncludeId(pub SyntaxNodePtr);
 
 fn list_includes(root_node: SyntaxNode) -> Vec<(IncludeId, EcoString)> {
-    (|| -> Option<_> {
-        let source_file = ast::SourceFile::cast(root_node)?;
-        let stmt_list = source_file.statement_list()?;
-        let include_paths = stmt_list
-            .statements()
-            .filter_map(|stmt| match stmt {
-                ast::Statement::Include(include) => {
-                    let id = IncludeId(SyntaxNodePtr::new(include.syntax()));
-                    let path = include.path()?.value();
-                    Some((id, path))
-                }
-                _ => None,
-            })
-            .collect();
-        Some(include_paths)
-    })()
-    .unwrap_or_default()
+    // every include statement of the file, also those nested in `let`, `defset`, ... blocks:
+    // the indexer and the document links look at all of them
+    root_node
+        .descendants()
+        .filter_map(ast::Include::cast)
+        .filter_map(|include| {
+            let id = IncludeId(SyntaxNodePtr::new(include.syntax()));
+            let path = include.path()?.value();
+            Some((id, path))
+        })
+        .collect()
 }
 
 fn resolve_include_file<FS: FileSystem>(
